@@ -377,6 +377,34 @@ def run(shard, ctx):
                 hist = [("add_notes", "rest", v)]
                 step_add(ctx, t, m, instrument, None, None, True, MU.Val(v), hist)
                 ctx.case(("instr-rest", instrument, v))
+            # a container whose middle note was replaced after construction (item assignment does not re-sort)
+            for bad_pitch in (hi + 5, lo - 5):
+                if bad_pitch < 0:
+                    continue
+                mid = (lo + hi) // 2
+                nc = NoteContainer([Note(mid - 4), Note(mid), Note(mid + 4)])
+                nc[1] = Note(bad_pitch)
+                t = Track(make_instrument(instrument))
+                m = TrackModel()
+                hist = [("add_notes", "container with nc[1] = out-of-range note", [mid - 4, bad_pitch, mid + 4])]
+                step_add(ctx, t, m, instrument, nc, sorted([mid - 4, bad_pitch, mid + 4]), False, MU.Val(4), hist)
+                ctx.case(("instr-unsorted", instrument, bad_pitch))
+            # the range of an instrument that has already judged some notes is changed
+            ins = make_instrument(instrument)
+            t = Track(ins)
+            m = TrackModel()
+            mid = (lo + hi) // 2
+            hist = [("add_notes", "note", mid), ("add_notes", "note", lo)]
+            step_add(ctx, t, m, instrument, Note(mid), [mid], True, MU.Val(8), hist[:1])
+            step_add(ctx, t, m, instrument, Note(lo), [lo], True, MU.Val(8), hist)
+            st, rr = ctx.call(ins.set_range, [Note(mid + 1), Note(mid + 12)])
+            RANGES["_tmp"] = (mid + 1, mid + 12)
+            for (p, inr) in ((mid, False), (lo, False), (mid + 1, True), (mid + 12, True), (mid + 13, False)):
+                hist = hist + [("add_notes after set_range [%d, %d]" % (mid + 1, mid + 12), p)]
+                if st == "ok":
+                    step_add(ctx, t, m, "_tmp", Note(p), [p], inr, MU.Val(8), hist)
+            del RANGES["_tmp"]
+            ctx.case(("instr-set_range", instrument))
         ctx.sample({"Track(Piano()).add_notes(Note('C',9))": repr(ctx.call(Track(Piano()).add_notes, Note("C", 9))[1])})
     else:
         rng = ctx.rng("comp")
